@@ -1220,6 +1220,24 @@ class NoPanic:
                 continue
             break
         xs = values.strip_payload(x)
+        # the result of an inlined `fn f(..) -> Result<T, E> { let v = g(..)?; Ok(T::new(v)) }`: it is Err exactly when g(..) is: the site is about g
+        if isinstance(xs, tuple) and xs and xs[0] == "phi":
+            oks_ = [a for a in xs[1] if isinstance(a, tuple) and a and a[0] == "agg" and str(a[1]).endswith(("Result::Ok", "Option::Some"))]
+            res_ = [a for a in xs[1] if a not in oks_]
+            srcs_ = []
+            for a in res_:
+                if is_call(a) and callee_name(a[1]) == "from_residual" and a[2]:
+                    s0 = values.strip_payload(a[2][0])
+                    while isinstance(s0, tuple) and s0 and s0[0] in ("vfield", "field", "variant"):
+                        s0 = s0[1]
+                    if is_call(s0) and callee_name(s0[1]) == "branch" and s0[2]:
+                        s0 = values.strip_payload(s0[2][0])
+                    srcs_.append(s0)
+                else:
+                    srcs_ = None
+                    break
+            if oks_ and srcs_ and len({values.fmt(s0) for s0 in srcs_}) == 1:
+                xs = srcs_[0]
         desc = coarse(P, xs)
         rels = flow.rel_facts_at(B.IN, b)
         is_opt = "Option" in t["fn"].get("path", "")
